@@ -1,7 +1,7 @@
 """IOS dialect: renderer, cmdparse and replica of specs/dev/Ios.tla (see asa.py)."""
 import copy
 from .common import Broken
-from .asa import ADDR, RADDR, GW, RGW, SVC, PORTNAME, RPORT
+from .asa import ADDR, RADDR, GW, RGW, SVC, PORTNAME, RPORT, SVCX, RSVCX
 
 WNETS = {"n12": ("10.1.1.0", "0.0.0.3"), "n34": ("10.1.2.0", "0.0.0.3"), "n14": ("10.1.0.0", "0.0.255.255")}
 RWNETS = {v: k for k, v in WNETS.items()}
@@ -34,6 +34,9 @@ def term(t):
 def ace_text(ace, dev):
     if ace["act"] == "remark":
         return "remark " + ace["svc"]
+    if ace["svc"] in SVCX:
+        proto, tail = SVCX[ace["svc"]][1 if dev else 0]
+        return "%s %s %s %s%s%s" % (ace["act"], proto, term(ace["src"]), term(ace["dst"]), tail, LOGS[ace["log"]])
     proto, port = SVC[ace["svc"]]
     s = "%s %s %s %s" % (ace["act"], proto, term(ace["src"]), term(ace["dst"]))
     if port is not None:
@@ -126,6 +129,12 @@ def parse_ace(tok):
     src, rest = _addr(tok[2:])
     dst, rest = _addr(rest)
     port = None
+    tailtok = [x for x in rest if x not in ("log", "log-input")]
+    if (proto, " ".join(tailtok)) in RSVCX:
+        logtok = rest[len(tailtok):]
+        if logtok not in ([], ["log"], ["log-input"]):
+            raise Broken("cmdparse: unknown IOS ACE tail %r" % rest)
+        return {"act": act, "svc": RSVCX[(proto, " ".join(tailtok))], "src": src, "dst": dst, "log": (logtok or [""])[0]}
     if rest and rest[0] == "eq":
         port = RPORT.get(rest[1]) or int(rest[1])
         rest = rest[2:]
